@@ -32,6 +32,25 @@ pub fn looks_like_scheme(bytes: &[u8]) -> bool {
 	false
 }
 
+/// Checks if the first segment of the given path contains a colon `:`.
+///
+/// Such a path cannot be written as is at the very beginning of a relative
+/// reference: the text before the colon would be read as a scheme (or make
+/// the reference ill-formed), so it must be shielded with a `./` prefix.
+#[inline]
+pub fn first_segment_has_colon(bytes: &[u8]) -> bool {
+	let mut i = 0;
+	while i < bytes.len() {
+		match bytes[i] {
+			b':' => return true,
+			b'/' => return false,
+			_ => i += 1,
+		}
+	}
+
+	false
+}
+
 #[derive(Debug, PartialEq, Eq)]
 pub enum SchemeAuthorityOrPath {
 	Scheme,
